@@ -143,8 +143,9 @@ CHECKS.update({
                  "interpolation relies on (T14, T20, T21, T22); localIjkToCell rejects coordinates more than one base cell away before the base-cell lookup (R-UNITVEC).",
                  "contiguity / shortest path (floating interpolation).", "R-CFORM " + CF + "; R-BW " + BW + "; R-GUARD " + G + "; R-ERRFLOW; R-TAB T14,T20,T21,T22 " + TAB + "; R-UNITVEC range-test/typestate rule"),
  "C15": _partial("C15", "out[i] only where i < size, E_MEMORY_BOUNDS when the capacity is reached; flags outside {0,1,2,3} => E_OPTION_INVALID on both experimental entry points; "
-                 "containment-mode enum/mask witnesses.",
-                 "what each containment mode means geometrically, nestedness, the size estimate being an upper bound.", "R-BW " + BW + "; R-GUARD " + G + "; R-WIT " + WIT),
+                 "containment-mode enum/mask witnesses; in each of the four containment modes every cell iterStepPolygonCompact emits has passed, on every path, the success edge of a test "
+                 "that the mode admits, applied to that cell's own geometry (R-GATE).",
+                 "what each containment mode means geometrically, nestedness, the size estimate being an upper bound.", "R-BW " + BW + "; R-GUARD " + G + "; R-GATE must-pass-through with argument binding; R-WIT " + WIT),
  "C16": _partial("C16", "the memory clause: scratch arrays of normalizeMultiPolygon/findPolygonForHole and the duplicate-node path of addVertexNode are freed on every path "
                  "without double free; a local vertex graph is destroyed on every path once initialised; cellsToLinkedMultiPolygon destroys the result before returning an error; "
                  "a hole that cannot be placed is freed and the hole loop is only left after every collected hole was visited; every struct type the builders allocate is freed in the call "
